@@ -8,7 +8,9 @@
   Quantifiers: all leaf lists of every length, every position, every hash type, every `H`.
 -/
 import LemoModel.Merkle
+import LemoModel.Mpt
 import LemoProofs.Lemmas.Merkle
+import LemoProofs.Lemmas.Mpt
 namespace LemoProofs.C17
 open LemoModel.Merkle LemoProofs.MerkleLemmas
 
@@ -217,6 +219,117 @@ example : findSiblings (HTerm.leaf 2) (calcNodes HTerm.node [.leaf 0, .leaf 1, .
     = .ok [⟨.leaf 3, .right⟩, ⟨.node (.leaf 4) (.node (.leaf 0) (.leaf 1)), .right⟩,
            ⟨.node (.node (.leaf 2) (.leaf 3)) (.node (.leaf 4) (.node (.leaf 0) (.leaf 1))), .root⟩] := by decide
 
+/-- remark (outside the property as worded — it needs a leaf that is itself a hash of two nodes): with
+    the length not committed, `[a,b,c]` and `[c, H a b]` have the same root. `root_binds_leaves` fixes
+    the length; `hsep` of `inclusion_binds_no_position` is the domain separation that excludes this. -/
+example : root HTerm.node (.leaf 99) [.leaf 0, .leaf 1, .leaf 2]
+    = root HTerm.node (.leaf 99) [.leaf 2, .node (.leaf 0) (.leaf 1)] := by decide
+
 end merkle
+
+/-!
+  ## Part B — the Merkle-Patricia trie of /repo/store/trie/trie.go
+
+  Model `LemoModel.Mpt`: `insert` / `delete` / `tryGet` case by case on the resolved node structure,
+  hex keys as produced by `keybytesToHex` (`TermKey`: nibbles then the terminator 16 — any length,
+  in particular the 64+1 nibbles of `SecureTrie`).  Hash nodes, cache generations, `Commit` and the
+  hasher are NOT in the model: in the model they are the identity on the structure, and that claim
+  is what the correspondence run (`tcommit`, `treopen`, small cache limits, real BeansDB) checks.
+
+  Quantifiers: all finite sequences of `TryUpdate` / `TryDelete` (empty value = delete), all
+  terminated keys (shared prefixes, one key a byte-prefix of another), all values.
+-/
+section mpt
+open LemoModel LemoModel.Mpt LemoProofs.MptLemmas
+
+/-- **get_refines_map**: starting from the empty trie, any sequence of updates/deletes on terminated
+    keys runs without panic, and afterwards `TryGet` returns, for every key, the last value written
+    (`absent` if never written, deleted, or last written with an empty value): the trie refines the
+    finite map `spec`. -/
+theorem get_refines_map (ops : List Op) (hk : ∀ op, op ∈ ops → TermKey op.key) :
+    ∃ t, run .empty ops = some t ∧
+      ∀ k, TermKey k → Mpt.get t k = toRes (spec (fun _ => none) ops k) := by
+  obtain ⟨t, h1, _, h3⟩ := run_spec ops .empty (fun _ => none) .empty
+    (fun k _ => by simp [Mpt.get, toRes]) hk
+  exact ⟨t, h1, h3⟩
+
+/-- single steps, from any canonical trie: `Get` after `Update` / `Delete` -/
+theorem get_after_insert (t : Node) (k k' : List Nib) (v : Val) (hC : Canon t) (hk : TermKey k)
+    (hk' : TermKey k') (hv : v ≠ []) :
+    ∃ t', Mpt.update t k v = some t' ∧ Canon t' ∧
+      Mpt.get t' k' = if k' = k then .found v else Mpt.get t k' := by
+  obtain ⟨d, n', hd, hCn, _, _, _, hget⟩ := insert_spec t k v hC hk hv
+  cases v with
+  | nil => exact absurd rfl hv
+  | cons y ys => exact ⟨n', by simp [Mpt.update, hd], hCn, hget k' hk'⟩
+
+theorem get_after_delete (t : Node) (k k' : List Nib) (hC : Canon t) (hk : TermKey k) (hk' : TermKey k') :
+    ∃ t', Mpt.remove t k = some t' ∧ Canon t' ∧
+      Mpt.get t' k' = if k' = k then .absent else Mpt.get t k' := by
+  obtain ⟨d, n', hd, hCn, _, _, hget⟩ := delete_spec t k hC hk
+  exact ⟨n', by simp [Mpt.remove, hd], hCn, hget k' hk'⟩
+
+/-- **canonical_invariant**: every reachable trie has the canonical shape `Canon` (leaf / extension
+    before a branch / branch with ≥ 2 children; no short-short chains, no empty values). -/
+theorem canonical_invariant (ops : List Op) (hk : ∀ op, op ∈ ops → TermKey op.key) :
+    ∃ t, run .empty ops = some t ∧ Canon t := by
+  obtain ⟨t, h1, h2, _⟩ := run_spec ops .empty (fun _ => none) .empty
+    (fun k _ => by simp [Mpt.get, toRes]) hk
+  exact ⟨t, h1, h2⟩
+
+/-- **canonical_unique**: a canonical trie is determined by its content. -/
+theorem canonical_unique (a b : Node) (ha : Canon a) (hb : Canon b)
+    (h : ∀ k, TermKey k → Mpt.get a k = Mpt.get b k) : a = b :=
+  canon_ext a b ha hb h
+
+/-- **canonical_shape** (full statement, not the `_partial` fallback): the trie after ANY history of
+    inserts and deletes is a function of the resulting key/value content alone — two histories with
+    the same final content end in the very same tree, whatever the order, the overwritten values and
+    the keys inserted and deleted again on the way. -/
+theorem canonical_shape (ops1 ops2 : List Op)
+    (hk1 : ∀ op, op ∈ ops1 → TermKey op.key) (hk2 : ∀ op, op ∈ ops2 → TermKey op.key)
+    (hsame : ∀ k, TermKey k → spec (fun _ => none) ops1 k = spec (fun _ => none) ops2 k) :
+    ∃ t, run .empty ops1 = some t ∧ run .empty ops2 = some t := by
+  obtain ⟨t1, h1, hC1, hg1⟩ := run_spec ops1 .empty (fun _ => none) .empty
+    (fun k _ => by simp [Mpt.get, toRes]) hk1
+  obtain ⟨t2, h2, hC2, hg2⟩ := run_spec ops2 .empty (fun _ => none) .empty
+    (fun k _ => by simp [Mpt.get, toRes]) hk2
+  have : t1 = t2 := canon_ext t1 t2 hC1 hC2 (fun k hk => by rw [hg1 k hk, hg2 k hk, hsame k hk])
+  subst this
+  exact ⟨t1, h1, h2⟩
+
+/-- **root_order_independent**: whatever function of the resolved structure the hasher computes
+    (`rootHash`; in Go: RLP + Keccak with nodes < 32 bytes embedded), equal content gives equal roots. -/
+theorem root_order_independent {β : Type} (rootHash : Node → β) (ops1 ops2 : List Op)
+    (hk1 : ∀ op, op ∈ ops1 → TermKey op.key) (hk2 : ∀ op, op ∈ ops2 → TermKey op.key)
+    (hsame : ∀ k, TermKey k → spec (fun _ => none) ops1 k = spec (fun _ => none) ops2 k) :
+    (run .empty ops1).map rootHash = (run .empty ops2).map rootHash := by
+  obtain ⟨t, h1, h2⟩ := canonical_shape ops1 ops2 hk1 hk2 hsame
+  rw [h1, h2]
+
+/-- the keys the API can produce are terminated, and distinct byte keys stay distinct -/
+theorem hexKey_terminated (bs : List Nat) : TermKey (hexKey bs) := hexKey_term bs
+
+theorem hexKey_injective (a b : List Nat) (ha : ∀ x, x ∈ a → x < 256) (hb : ∀ x, x ∈ b → x < 256)
+    (h : hexKey a = hexKey b) : a = b := hexKey_inj a b ha hb h
+
+/-! #### non-vacuity and the panic branches (unreachable through `keybytesToHex`) -/
+
+/-- two orders, one with an overwritten value and a key inserted and removed again: same walk -/
+example :
+    (run .empty [.put (hexKey [0x12]) [1], .put (hexKey [0x13]) [2], .put (hexKey [0x12, 0x34]) [3]]).map (walk · []) =
+    (run .empty [.put (hexKey [0x12, 0x34]) [9], .put (hexKey [0x77]) [7], .put (hexKey [0x13]) [2],
+                 .put (hexKey [0x12, 0x34]) [3], .del (hexKey [0x77]), .put (hexKey [0x12]) [1]]).map (walk · []) := by
+  decide
+
+example : TermKey (hexKey [0x12, 0x34]) := hexKey_term _
+
+/-- model panics exist only for keys `keybytesToHex` cannot produce: a key that ends inside a full
+    node (`key[pos]` out of range) and a key that is a proper prefix of a short node's key. -/
+example : Mpt.get (.full fun _ => .empty) [] = .panic := rfl
+example : Mpt.insert (.short [1, 2, 16] (.value [1])) [1] [2] = none := by decide
+example : Mpt.delete (.full fun _ => .empty) [] = none := rfl
+
+end mpt
 
 end LemoProofs.C17
